@@ -6,6 +6,7 @@ import ProductMD.Model.ImagesLegacy
 import ProductMD.Model.TreeInfoLegacy
 import ProductMD.Model.RpmsLegacy
 import ProductMD.Model.ComposeInfoDown
+import ProductMD.Model.TreeInfoDown
 import ProductMD.Driver.OpsBuilders
 /-!
 driver ops of C05: load a document of ANY format version through the legacy-aware readers
@@ -14,6 +15,7 @@ driver ops of C05: load a document of ANY format version through the legacy-awar
 * `c05_ci_cycle`  `{"doc": <parsed composeinfo JSON>}`
 * `c05_img_cycle` `{"doc": <parsed images JSON>}`
 * `c05_rpms_cycle` `{"doc": <parsed rpms JSON>}`
+* `c05_ti_down`   `{"spec": <tree spec>, "vs": text, "ver": [a, b], "child_key": "addons"|"variants"}` → `{"ok": [[section, [[k, v]..]]..]}`
 * `c05_ti_cycle`  `{"text": <.treeinfo text>, "floats": {text: {"int": n | "int_err": cls}}}`
 
 Answers: `{"load": {"ok": snapshot} | {"err": cls}, "dump": {"ok": text}, "reload": .., "dump2": ..}` (later keys only
@@ -104,6 +106,13 @@ def tiCycle (fo : FloatOracle) (text : Str) : Json :=
                        | .error e => errJson e)]
 end
 
+/-- the spec-level down-conversion of a tree (`TI.down`, the subject of C05_ti_faithful_down*): compared with
+harness/formats/legacy.py `ti_sections` on every generated case -/
+def tiDown (a : Json) : Json :=
+  match PM.TI.down (getStrD a "vs") (verOf a) (getStrD a "child_key") (OpsTreeInfo.treeInfoOf (get a "spec")) with
+  | .ok d => jok (OpsTreeInfo.jdoc d)
+  | .error e => errJson e
+
 /-! ### rpms -/
 section
 open PM.Mf PM.Driver.OpsBuilders
@@ -129,6 +138,7 @@ def ops : List (String × (Json → Json)) :=
    ("c05_ci_expected", ciExpected),
    ("c05_img_cycle", fun a => imgCycle (toPy (get a "doc"))),
    ("c05_rpms_cycle", fun a => rpmsCycle (toPy (get a "doc"))),
+   ("c05_ti_down", tiDown),
    ("c05_ti_cycle", fun a => tiCycle (OpsTreeInfo.oracleOf (get a "floats")) (getStrD a "text"))]
 
 end PM.Driver.OpsC05
